@@ -78,15 +78,14 @@ class Wikicode(StringMixIn):
     def _instances(value):
         """Yield *value*, then copies of it, for use at several places.
 
-        A string is parsed again wherever it is inserted, but a node or
-        Wikicode object put at two places would be one object shared by both.
+        A node put at two places would be one object shared by both, whether
+        it is given by itself, in a Wikicode object or in a list, and an
+        iterator or a file can only be read once.
         """
+        value = parse_anything(value)
         yield value
         while True:
-            if isinstance(value, (Node, Wikicode)):
-                yield copy.deepcopy(value)
-            else:
-                yield value
+            yield copy.deepcopy(value)
 
     @staticmethod
     def _slice_replace(code, index, old, new):
